@@ -365,6 +365,10 @@ func genSoft() {
 	dist := params.Distribution{MaxCoinSupply: 100, InitialUnlockedCount: 1, Addresses: []string{owners[1].addr.String(), lockedOwner.addr.String()}}
 	headTime := uint64(2000000 + rng.Intn(1000000))
 	nIn := 1 + rng.Intn(3)
+	hugeHours := rng.Intn(12) == 0 // one input whose hours are within a few of 2^64-1: the fee arithmetic at the top of the range
+	if hugeHours {
+		nIn = 1
+	}
 	var uxIn coin.UxArray
 	var txn coin.Transaction
 	keys := []cipher.SecKey{}
@@ -379,6 +383,10 @@ func genSoft() {
 			Body: coin.UxBody{SrcTransaction: randHash(), Address: ow.addr, Coins: uint64(1+rng.Intn(50)) * 1e6, Hours: uint64(rng.Intn(2000))}}
 		if rng.Intn(10) == 0 {
 			ux.Body.Hours = 0
+			ux.Head.Time = headTime
+		}
+		if hugeHours {
+			ux.Body.Hours = ^uint64(0) - uint64(rng.Intn(12))
 			ux.Head.Time = headTime
 		}
 		uxIn = append(uxIn, ux)
@@ -409,7 +417,11 @@ func genSoft() {
 	case 3:
 		outH = hin + 1 + uint64(rng.Intn(3)) // more hours than the inputs have
 	case 4:
-		outH = uint64(rng.Int63n(int64(hin + 1)))
+		if hin < 1<<62 {
+			outH = uint64(rng.Int63n(int64(hin + 1)))
+		} else {
+			outH = hin - uint64(rng.Intn(3))
+		}
 	}
 	nOut := 1 + rng.Intn(3)
 	if rng.Intn(12) == 0 {
@@ -475,17 +487,31 @@ func genCreate() {
 	auxs := coin.AddressUxOuts{}
 	offered := []uxJ{}
 	small := rng.Intn(3) == 0 // small numbers make exact matches (no change, equal outputs) likely
+	// tight: the requested hours are what ALL offered outputs together can just pay (one larger output whose hours are a
+	// multiple of the burn factor and several one-hour outputs, none of which helps alone); coins are covered by the first
+	tight := rng.Intn(6) == 0
+	tightTotal := uint64(0)
+	if tight {
+		nUx = 3 + rng.Intn(4)
+	}
 	for i := 0; i < nUx; i++ {
 		ow := owners[rng.Intn(len(owners))]
 		c := uint64(1+rng.Intn(50)) * 1e6
 		h := uint64(rng.Intn(3000))
 		tm := headTime - uint64(rng.Intn(400000))
+		if tight {
+			c, h, tm = 1e6, 1, headTime
+			if i == 0 {
+				c, h = 10e6, uint64(burn)*uint64(1+rng.Intn(3))
+			}
+			tightTotal += h
+		} else
 		if small {
 			c = uint64(1+rng.Intn(4)) * 1e6
 			h = uint64(rng.Intn(8))
 			tm = headTime
 		}
-		if rng.Intn(4) == 0 {
+		if !tight && rng.Intn(4) == 0 {
 			h, tm = 0, headTime
 		}
 		ux := coin.UxOut{Head: coin.UxHead{Time: tm, BkSeq: uint64(1 + rng.Intn(10))},
@@ -495,6 +521,9 @@ func genCreate() {
 	}
 	p := transaction.Params{}
 	mode := []string{"manual", "auto"}[rng.Intn(2)]
+	if tight {
+		mode = "manual"
+	}
 	shareNum, shareDen := 0, 1
 	if mode == "manual" {
 		p.HoursSelection = transaction.HoursSelection{Type: transaction.HoursSelectionTypeManual}
@@ -505,10 +534,25 @@ func genCreate() {
 		p.HoursSelection = transaction.HoursSelection{Type: transaction.HoursSelectionTypeAuto, Mode: transaction.HoursSelectionModeShare, ShareFactor: &sf}
 	}
 	nTo := 1 + rng.Intn(3)
+	if tight {
+		nTo = 1
+	}
 	to := []outJ{}
 	for i := 0; i < nTo; i++ {
 		d := dests[rng.Intn(len(dests))]
 		c := uint64(1+rng.Intn(40)) * 1e6
+		if tight {
+			// all hours that remain after the fee on everything offered (sometimes one less, sometimes one too many)
+			fee := (tightTotal + uint64(burn) - 1) / uint64(burn)
+			hh := tightTotal - fee + uint64(rng.Intn(3)) - 1
+			if rng.Intn(2) == 0 {
+				hh = tightTotal - fee
+			}
+			cc := uint64(1+rng.Intn(9)) * 1e6
+			p.To = append(p.To, coin.TransactionOutput{Address: d.addr, Coins: cc, Hours: hh})
+			to = append(to, outJ{ID: fmt.Sprintf("t%d", i), Addr: d.addr.String(), Coins: L(cc), Hours: L(hh)})
+			continue
+		}
 		if small {
 			c = uint64(1+rng.Intn(4)) * 1e6
 		}
